@@ -506,6 +506,10 @@ func cmdCheck(args []string) int {
 	asm = append(asm, "scalar pointers of unknown provenance do not alias struct fields / array elements accessed in the same function")
 	asm = append(asm, "callee contracts are assumed at call sites (modular verification); each in-package callee contract is itself verified under the property that tags it")
 	for k, v := range assumed {
+		if strings.HasPrefix(k, "trusted-contract") || strings.HasPrefix(k, "frame:") {
+			asm = append(asm, fmt.Sprintf("assumed, not proved: %s (used %d×)", k, v))
+			continue
+		}
 		asm = append(asm, fmt.Sprintf("assumed model/contract of dependency: %s (used %d×)", k, v))
 	}
 	for k, v := range uncontracted {
